@@ -42,7 +42,7 @@ ID = "C02"
 TECHNIQUE = "bounded-exhaustive input family x entry points x config vs reference normaliser; differential twins"
 RULE = ("every raw input of the compositional family (vertex count x ordered list of distinct declared edges over the "
         "alphabet {valid, reversed, diagonal, self-loop, index==n, index>n, negative} x face menu x cell menu x edge "
-        "attributes none/sparse/partly sparse/dense x corner containers absent/pre-filled x completion switches {T,F}^2) "
+        "attributes none/sparse/partly sparse/sparse with custom default/dense scalar/dense vector x corner containers absent/pre-filled x completion switches {T,F}^2) "
         "is built through every entry point and row container type, rebuilt from itself twice, and compared clause by "
         "clause with a reference normaliser; a case is one distinct (input, entry point, row type, switches); "
         "non-trivial = at least one edge, face or cell declared")
@@ -60,20 +60,32 @@ ASSUMPTIONS = [
     "of that format documents (OFF: triangles; .tet: tetrahedra; .mesh: edges, triangles, quads, tets, hexes; obj: "
     "v/l/f; geogram_ascii: everything + one float edge attribute; xyz: points); no negative index in files",
     "violations of a variant (other entry point / row type) are reported only when the baseline (RawMeshData + "
-    "_instanciate_raw_mesh_data, list rows) of the same input does not already show them: one defect, one fingerprint",
+    "_instanciate_raw_mesh_data, list rows) of the same input does not already show the same clause and kind of "
+    "deviation: one defect, one fingerprint",
     "twins battery: answers are compared after converting numpy scalars/arrays/tuples to plain lists; order of "
-    "set-derived neighbour lists is not compared; each behaviour runs on freshly built twins",
+    "set-derived neighbour lists is not compared; each behaviour runs on freshly built twins; two twins that both raise "
+    "are equal (exception classes are not compared) and the rest of that behaviour is not compared; failures of several "
+    "behaviours that come from the same library function are reported once (first behaviour in battery order)",
+    "a change made by rebuilding to a container that already deviates after the first build is folded into that first "
+    "deviation (detail field and_after_rebuild), not reported as a second fingerprint",
+    "save -> load: the expectation is the normal form of what the written file carries (medit/obj: hard edges only, "
+    "medit blocks in the writer's order); a save() that raises is counted, not reported (C04 owns the writers); the "
+    "hard-edge clauses are skipped for geogram_ascii files, which carry their own hard_edges attribute",
 ]
 BOUNDS = {
-    "quick": "8 face menus x 4 cell menus (none, tet, 2 tets sharing a face, hex) x {T,F}^2 switches; ordered edge lists "
-             "of <= 2 distinct symbols over 6 symbols (37 lists); vertex count = needed (+1 for lists of <= 1 edge; 0..4 "
-             "without faces/cells); attributes none/sparse/partly sparse/dense; pre-filled corners on attribute-free inputs; "
-             "entry points: _instanciate (list/tuple/numpy rows), class constructor, from_arrays 3-D/2-D, files in 6 text "
-             "formats; rebuild x2; twins battery on 32 menus x edge lists of <= 1 symbol, default switches",
-    "thorough": "8 face menus x 6 cell menus (+ tet+hex, 2 hexes sharing a face) x {T,F}^2; ordered edge lists of <= 3 "
-                "distinct symbols over 9 symbols (lists of 3 over the 6-symbol alphabet only for variants other than the "
-                "baseline); vertex count needed and needed+1; same attributes / corners / entry points; twins battery on 48 "
-                "menus x edge lists of <= 2 symbols, switches {T,F}^2",
+    "quick": "8 face menus x 4 cell menus (none, tet, 2 tets sharing a face, hex) x {T,F}^2 switches (those that are read); "
+             "all ordered lists of <= 2 distinct edge symbols over 6 symbols (37 lists); vertex count = needed (+1 for lists "
+             "of <= 1 edge, baseline only; 0..4 without faces/cells); edge attributes none / sparse / partly sparse / sparse "
+             "with custom default / dense scalar / dense vector; pre-filled corner containers (consistent; cell corners "
+             "elements only) on attribute-free inputs; every input also through: class constructor, tuple rows, numpy rows, "
+             "from_arrays 3-D/2-D, a harness-written file in 6 text formats, mouette save -> load in 6 text formats; every "
+             "built mesh rebuilt twice; twins battery (about 60 behaviours) on the 32 menus x edge lists of <= 1 symbol, "
+             "default switches",
+    "thorough": "8 face menus x 6 cell menus (+ tet+hex, 2 hexes sharing a face) x {T,F}^2; all ordered lists of <= 3 distinct "
+                "edge symbols over 9 symbols (498 lists) for the baseline entry point (lists of 3: vertex count needed, "
+                "attributes none / sparse / dense scalar), the 78 lists of <= 2 symbols for the other entry points / row "
+                "types; vertex count needed and needed+1 (needed for class constructor / tuple / numpy rows); same attributes / "
+                "corners / entry points as quick; twins battery on 48 menus x edge lists of <= 2 symbols, switches {T,F}^2",
 }
 
 DEFAULT_SW = (True, True)
@@ -99,7 +111,7 @@ def _applicable(entry, F, C):
 
 def tasks(tier):
     cells = L.CELL_QUICK if tier == "quick" else L.CELL_THOROUGH
-    parts = 1 if tier == "quick" else 4
+    parts = 1 if tier == "quick" else 3
     out = []
     for cname in cells:
         for fname in L.FACE_MENU:
@@ -165,7 +177,8 @@ def make_raw(M, inp, rows):
     if mode != "none" and inp["E"]:
         dense = mode.startswith("dense")
         names = L.attr_names(mode)
-        w = r.edges.create_attribute("w", float, dense=dense) if "w" in names else None
+        kw = {"default_value": L.CUSTOM_DEFAULT} if mode == "sparse_dflt" else {}
+        w = r.edges.create_attribute("w", float, dense=dense, **kw) if "w" in names else None
         t = r.edges.create_attribute("tag", int, 2, dense=dense) if "tag" in names else None
         for i in L.attr_positions(mode, len(inp["E"])):
             if w is not None:
@@ -331,7 +344,7 @@ def evaluate_saveload(M, inp, fmt, tmp, rep):
     except Exception as e:  # noqa: BLE001  - save itself belongs to C04
         rep.count("saveload_save_raises:" + fmt + ":" + type(e).__name__)
         return [], None
-    inp2 = dict(inp, E=E, F=F, C=C, attr="none", prefill="absent", nv=len(o0["V"]))
+    inp2 = dict(inp, E=E, F=F, C=C, attr="none", prefill="absent", nv=len(o0["V"]), skip_hard=(fmt == "geogram_ascii"))
     ref = L.reference(len(o0["V"]), o0["V"], E, F, C, inp["cE"], inp["cF"])
     try:
         with Switches(M, inp["cE"], inp["cF"]):
@@ -406,7 +419,7 @@ CALLEE = {"inst": "RawMeshData.prepare", "ctor": "Mesh.__init__", "arrays": "fro
 
 def report(rep, devs, inp, entry, rows, baseline_keys, seen_local):
     for sub, kind, icls, detail in devs:
-        key = (sub, kind, icls)
+        key = (sub, kind)
         if baseline_keys is not None and key in baseline_keys:
             rep.count("variant_deviation_already_in_baseline")
             continue
@@ -435,30 +448,33 @@ def report(rep, devs, inp, entry, rows, baseline_keys, seen_local):
 # ------------------------------------------------------------------------------------------------ norm tasks
 def edge_sequences(tier):
     """-> list of (symbols, variants_too): the baseline sees every list, the other entry points / row types the
-    lists of the variant bound."""
+    lists of <= 2 symbols."""
     if tier == "quick":
         return [(seq, True) for seq in L.edge_lists(L.SYMS_SMALL, 2)]
-    small3 = set(tuple(x) for x in L.edge_lists(L.SYMS_SMALL, 3))
-    return [(seq, len(seq) <= 2 or tuple(seq) in small3) for seq in L.edge_lists(L.SYMS_FULL, 3)]
+    return [(seq, len(seq) <= 2) for seq in L.edge_lists(L.SYMS_FULL, 3)]
 
 
 def inputs_of(task):
-    """-> (input, variants_too) for the baseline; which variant applies to which input is decided by variant_inputs"""
+    """-> (input, variants_too) for the baseline; which variant applies to which input is decided by variant_applies"""
     F, C = L.FACE_MENU[task["F"]], L.CELL_MENU[task["C"]]
     need = L.nv_needed(F, C)
     k = -1
     for seq, vt in edge_sequences(task["tier"]):
+        rich = len(seq) <= 2
         if need == 0:
-            nvs = [0, 1, 2, 3, 4]
+            nvs = [0, 1, 2, 3, 4] if rich else [2, 4]
         else:
-            nvs = [need] + ([need + 1] if (len(seq) <= 1 or task["tier"] == "thorough") else [])
+            nvs = [need] + ([need + 1] if (len(seq) <= 1 or (rich and task["tier"] == "thorough")) else [])
         for nv in nvs:
             k += 1
             if k % task["parts"] != task["part"]:
                 continue
-            E = [L.resolve(s, nv) for s in seq]
-            modes = ["none"] + (["sparse_all", "dense", "dense_vec"] if E else []) + (["sparse_some"] if len(E) >= 2 else [])
-            pres = ["absent"] + (["consistent"] if (F or C) else []) + (["cc_elem_only"] if C else [])
+            E = [L.resolve(s_, nv) for s_ in seq]
+            if rich:
+                modes = ["none"] + (["sparse_all", "dense", "dense_vec", "sparse_dflt"] if E else []) + (["sparse_some"] if len(E) >= 2 else [])
+                pres = ["absent"] + (["consistent"] if (F or C) else []) + (["cc_elem_only"] if C else [])
+            else:
+                modes, pres = ["none", "sparse_all", "dense"], ["absent"]
             for mode in modes:
                 for pre in (pres if mode == "none" else ["absent"]):
                     yield {"pts": "CUBE" if "hex" in task["C"] else "G", "nv": nv, "E": E, "F": F, "C": C, "attr": mode,
@@ -469,8 +485,8 @@ def variant_applies(entry, rows, inp, tier):
     F, C, E = inp["F"], inp["C"], inp["E"]
     plain = inp["attr"] == "none" and inp["prefill"] == "absent"
     if entry in ("ctor", "inst"):
-        if tier == "quick" and inp["nv"] > L.nv_needed(F, C) > 0:
-            return False                               # quick: the extra isolated vertex only for the baseline
+        if inp["nv"] > L.nv_needed(F, C) > 0:
+            return False                               # the extra isolated vertex only for the baseline
         return True
     if entry in ("arrays", "arrays2d"):
         return plain and _applicable(entry, F, C)
@@ -494,7 +510,7 @@ def run_norm(task, rep):
         for inp, variants_too in inputs_of(task):
             devs0, o = evaluate(M, inp, "inst", "list", tmp, rep)
             report(rep, devs0, inp, "inst", "list", None, seen_local)
-            keys0 = set((s_, k_, i_) for s_, k_, i_, _ in devs0)
+            keys0 = set((s_, k_) for s_, k_, i_, _ in devs0)      # clause + kind: the input class of a variant may differ
             todo = [("inst", "list", o)]
             if variants_too:
                 for entry, rows in VARIANTS[1:]:
@@ -667,7 +683,7 @@ def run_task(task, rep: Report):
 
 
 def finish(tier, rep: Report):
-    fails = []
+    fails = ["oracle self-test: " + x for x in L.selftest()]
     n_norm = rep.counters.get("tasks:norm", 0)
     n_tw = rep.counters.get("tasks:twins", 0)
     want = tasks(tier)
@@ -686,7 +702,7 @@ def finish(tier, rep: Report):
             fails.append("never observed: " + c)
     if len(rep.outcomes.get("build", ())) < 4:
         fails.append("fewer than 4 distinct build outcomes")
-    floor = {"quick": 40000, "thorough": 400000}[tier]
+    floor = {"quick": 40000, "thorough": 400000}[tier]            # DESIGN B: ~40 000 / ~400 000 builds
     if rep.counters.get("builds_checked", 0) < floor:
         fails.append(f"only {rep.counters.get('builds_checked', 0)} builds checked (floor {floor})")
     return fails
